@@ -25,7 +25,7 @@ deriving Repr, DecidableEq
 
 inductive Label where
   | newNode
-  | callRelease (n : Nat)        -- anyone calls n.release(): superseded computation, Stop, failed run
+  | callRelease (n : Nat)        -- the rerunner calls n.release(): superseded computation, Stop, failed run - nodes nothing depends on
   | addOut (n to : Nat)          -- critical section of addOut
   | relCS (n : Nat)              -- critical section of release on n (+ handler call)
   | relEdge (frm n : Nat)        -- critical section on `frm` in release(n)'s loop
@@ -39,7 +39,10 @@ def init : St := {}
 
 def step (s : St) : Label → Option St
   | .newNode => some { s with nodes := s.nodes ++ [{}] }
-  | .callRelease n => if n < s.nodes.length then some { s with pendRel := n :: s.pendRel } else none
+  | .callRelease n =>
+      -- the callers (`Rerunner.run`, `Stop`, `run` on an error) release root computations and computations that
+      -- failed before anything could depend on them: never a node that something depends on
+      if n < s.nodes.length ∧ (getNode s n).out = [] then some { s with pendRel := n :: s.pendRel } else none
   | .addOut n to =>
       if n < s.nodes.length ∧ to < s.nodes.length ∧ n ≠ to then
         let x := getNode s n
